@@ -162,6 +162,8 @@ def sample_cfg(name: str, rng, tier: str = "quick", small: bool = True) -> dict:
             cfg["gen"]["max_lateness_weight"] = 0.75
     elif name == "mtvrp":
         cfg["gen"] = {"num_loc": n, "variant_preset": rng.choice(MTVRP_VARIANTS + ["all", "all"])}
+        if rng.random() < 0.3:
+            cfg["gen"]["speed"] = rng.choice([0.5, 2.0])
     elif name == "fjsp":
         j, m = (rng.randint(2, 4), rng.randint(2, 3)) if not big else (rng.randint(5, 10), rng.randint(3, 5))
         lo = rng.randint(1, 3)
@@ -264,3 +266,25 @@ def done_vec(td) -> torch.Tensor:
 def step(env, td, actions: torch.Tensor):
     td.set("action", actions)
     return env.step(td)["next"]
+
+
+def hand_format(name: str, rows: list, rng):
+    """Rewrite generator rows into other *documented-format* instances the generator never emits
+    (hand-supplied data): CVRPTW with non-zero service durations (Solomon style) that keep the
+    documented invariant close_j + duration_j + d(j, depot) <= depot close.  Returns (rows, tag)."""
+    if name == "cvrptw":
+        out = []
+        for r in rows:
+            r = {k: v.clone() for k, v in r.items()}
+            locs = torch.cat((r["depot"][None], r["locs"]), 0)
+            d0 = (locs - locs[0]).norm(dim=-1)
+            tw = r["time_windows"].to(torch.float32)
+            max_time = tw[0, 1]
+            slack = (max_time - tw[:, 1] - d0).clamp(min=0)
+            frac = torch.tensor([rng.random() for _ in range(tw.shape[0])])
+            dur = (slack * frac * 0.9).to(r["durations"].dtype)
+            dur[0] = 0
+            r["durations"] = dur
+            out.append(r)
+        return out, "hand:cvrptw_durations"
+    return rows, "generator"
